@@ -339,8 +339,9 @@ def genericSplit (f : Finder) (units : List Nat) (unicode : Bool) (lim : Option 
 `raw` below is what `regexpPattern.findAllSubmatchIndex` returned (a list of index arrays); how the
 engines and goja's wrappers produce it is a separate question (see `findAll`, `goAllMatches`). -/
 
-/-- `stdSplitter` fast path (builtin_regexp.go:1028-1100), `lim = none` ⇔ limit −1 (undefined). -/
-def fastSplitLoop (units : List Nat) (lim : Option Nat) :
+/-- `stdSplitter` fast loop as it was BEFORE /repo 5a3ab73 (kept only for the regression lemma
+`fastSplit_prefix_witness`): an empty match was skipped only at index 0 or at the end. `lim = none` ⇔ limit −1. -/
+def fastSplitLoopOld (units : List Nat) (lim : Option Nat) :
     List (List Int) → Nat → Nat → List (Option (List Nat)) → List (Option (List Nat)) × Bool
   -- returns (valueArray, reachedLimit); `found` is tracked separately as in the Go code
   | [], _, _, acc => (acc, false)
@@ -348,7 +349,7 @@ def fastSplitLoop (units : List Nat) (lim : Option Nat) :
     let s := (r.getD 0 0).toNat
     let e := (r.getD 1 0).toNat
     let n := units.length
-    if s == e && (s == 0 || s == n) then fastSplitLoop units lim rest lastIndex found acc
+    if s == e && (s == 0 || s == n) then fastSplitLoopOld units lim rest lastIndex found acc
     else
       -- both branches of the Go `if lastIndex != idx0 … else if lastIndex == idx0` push exactly s[lastIndex:idx0]
       let acc := acc ++ [some (sub units lastIndex s)]
@@ -358,24 +359,24 @@ def fastSplitLoop (units : List Nat) (lim : Option Nat) :
         let caps := captureValsPlain units (r.drop 2)
         let room := match lim with | some l => l - found | none => caps.length + 1
         if caps.length ≥ room then (acc ++ caps.take room, true)
-        else fastSplitLoop units lim rest e (found + caps.length) (acc ++ caps)
+        else fastSplitLoopOld units lim rest e (found + caps.length) (acc ++ caps)
 
 /-- the tail of `stdSplitter` needs the last `lastIndex`; recomputed from the consumed matches. -/
-def fastSplitLast (units : List Nat) : List (List Int) → Nat → Nat
+def fastSplitLastOld (units : List Nat) : List (List Int) → Nat → Nat
   | [], lastIndex => lastIndex
   | r :: rest, lastIndex =>
     let s := (r.getD 0 0).toNat
     let e := (r.getD 1 0).toNat
-    if s == e && (s == 0 || s == units.length) then fastSplitLast units rest lastIndex
-    else fastSplitLast units rest e
+    if s == e && (s == 0 || s == units.length) then fastSplitLastOld units rest lastIndex
+    else fastSplitLastOld units rest e
 
-def fastSplit (units : List Nat) (raw : List (List Int)) (lim : Option Nat) : List (Option (List Nat)) :=
+def fastSplitOld (units : List Nat) (raw : List (List Int)) (lim : Option Nat) : List (Option (List Nat)) :=
   if lim == some 0 then []
   else if units.length == 0 then (if raw.isEmpty then [some []] else [])
   else
-    let (acc, hit) := fastSplitLoop units lim raw 0 0 []
+    let (acc, hit) := fastSplitLoopOld units lim raw 0 0 []
     if hit then acc
-    else acc ++ [some (sub units (fastSplitLast units raw 0) units.length)]
+    else acc ++ [some (sub units (fastSplitLastOld units raw 0) units.length)]
 
 /-- `stdMatcher`, global branch: the matched substrings (`none` = the method returns null). -/
 def fastMatchStrings (units : List Nat) (raw : List (List Int)) : Option (List (List Nat)) :=
@@ -517,7 +518,7 @@ def r2All (fl : RFlags) (f : Finder) (units : List Nat) (start : Nat) (limit : O
   r2AllLoop fl f units sticky (units.length + 2) start start limit
 
 /-- The same sweep with the sticky test the generic protocol implies: a match must start exactly where the
-search resumed (`pos`), not where the previous match ended.  (What fixes/C20-sticky-global-generic… restores.) -/
+search resumed (`pos`), not where the previous match ended.  (The coded test is no longer reachable from the built-ins since /repo 15617dc.) -/
 def idealAllLoop (fl : RFlags) (f : Finder) (units : List Nat) (sticky : Bool) :
     Nat → Nat → Option Nat → List MatchR
   | 0, _, _ => []
@@ -535,10 +536,12 @@ def idealAllLoop (fl : RFlags) (f : Finder) (units : List Nat) (sticky : Bool) :
 def idealAll (fl : RFlags) (f : Finder) (units : List Nat) (start : Nat) (limit : Option Nat) (sticky : Bool) : List MatchR :=
   idealAllLoop fl f units sticky (units.length + 2) start limit
 
-/-- `stdMatcher` fast path, global branch (builtin_regexp.go:775-785): lastIndex := 0, then one sweep
-`findAllSubmatchIndex(s, 0, -1, sticky)` — here over the regexp2 wrapper loops as coded. -/
+/-- `stdMatcher`, global branch (builtin_regexp.go; /repo 15617dc): a sticky RegExp is handed to the generic
+protocol; otherwise lastIndex := 0 and one sweep `findAllSubmatchIndex(s, 0, -1, false)` — here over the regexp2
+wrapper loops as coded. -/
 def fastGlobalMatches (fl : RFlags) (f : Finder) (units : List Nat) : List MatchR × Nat :=
-  (r2All fl f units 0 none fl.sticky, 0)
+  if fl.sticky then genericGlobalMatches fl f units
+  else (r2All fl f units 0 none false, 0)
 
 /-- Go's allMatches with code-point steps (UTF-8 input in unicode mode). -/
 def goAllLoopU (fl : RFlags) (f : Finder) (units : List Nat) : Nat → Nat → Option Nat → List MatchR
@@ -556,17 +559,17 @@ def goAllLoopU (fl : RFlags) (f : Finder) (units : List Nat) : Nat → Nat → O
 
 def goAll (fl : RFlags) (f : Finder) (units : List Nat) : List MatchR := goAllLoopU fl f units (units.length + 2) 0 none
 
-/-- `stdSplitter` fast loop with the one-line repair of fixes/C20-split-empty-match-at-previous-end.diff: an empty
-match located where the previous piece ended (`lastIndex`, initially 0) or at the end of the subject is skipped —
-ECMA-262's `e = p` test. -/
-def fastSplitLoopFixed (units : List Nat) (lim : Option Nat) :
+/-- `stdSplitter` fast path (builtin_regexp.go, loop over `findAllSubmatchIndex(s,0,-1,false)`; /repo 5a3ab73): an
+empty match located where the previous piece ended (`lastIndex`, initially 0) or at the end of the subject is
+skipped — ECMA-262's `e = p` test. `lim = none` ⇔ limit −1 (undefined). -/
+def fastSplitLoop (units : List Nat) (lim : Option Nat) :
     List (List Int) → Nat → Nat → List (Option (List Nat)) → List (Option (List Nat)) × Bool × Nat
   | [], lastIndex, _, acc => (acc, false, lastIndex)
   | r :: rest, lastIndex, found, acc =>
     let s := (r.getD 0 0).toNat
     let e := (r.getD 1 0).toNat
     let n := units.length
-    if s == e && (s == lastIndex || s == n) then fastSplitLoopFixed units lim rest lastIndex found acc
+    if s == e && (s == lastIndex || s == n) then fastSplitLoop units lim rest lastIndex found acc
     else
       let acc := acc ++ [some (sub units lastIndex s)]
       let found := found + 1
@@ -575,13 +578,13 @@ def fastSplitLoopFixed (units : List Nat) (lim : Option Nat) :
         let caps := captureValsPlain units (r.drop 2)
         let room := match lim with | some l => l - found | none => caps.length + 1
         if caps.length ≥ room then (acc ++ caps.take room, true, e)
-        else fastSplitLoopFixed units lim rest e (found + caps.length) (acc ++ caps)
+        else fastSplitLoop units lim rest e (found + caps.length) (acc ++ caps)
 
-def fastSplitFixed (units : List Nat) (raw : List (List Int)) (lim : Option Nat) : List (Option (List Nat)) :=
+def fastSplit (units : List Nat) (raw : List (List Int)) (lim : Option Nat) : List (Option (List Nat)) :=
   if lim == some 0 then []
   else if units.length == 0 then (if raw.isEmpty then [some []] else [])
   else
-    let (acc, hit, last) := fastSplitLoopFixed units lim raw 0 0 []
+    let (acc, hit, last) := fastSplitLoop units lim raw 0 0 []
     if hit then acc else acc ++ [some (sub units last units.length)]
 
 end GojaModel.C20
